@@ -2,6 +2,7 @@
 #ifndef VP_SEM_H_
 #define VP_SEM_H_
 #include "vp_rg.h"
+#include "vp_clock.h"
 struct vp_sem_ghost {
 	int role;              /* 0: the (single) waiter of this per-thread semaphore; 1: a poster */
 	int no_posts;          /* rely refinement for the C15 "prompt" group: nobody posts during the call */
@@ -14,9 +15,7 @@ struct vp_sem_ghost {
 	unsigned waits;        /* FUTEX_WAIT calls */
 	unsigned wakes;        /* FUTEX_WAKE calls */
 	int wake_after_post;   /* every FUTEX_WAKE so far came after this thread's increment */
-	int clock_valid;
-	nsync_time clock;      /* last value returned by clock_gettime */
-	unsigned clock_reads_after_timeout; /* clock readings taken after the last futex ETIMEDOUT */
+	unsigned reads_at_timeout;  /* vp_clk.reads when the last futex ETIMEDOUT was reported */
 };
 extern struct vp_sem_ghost vp_s;
 extern int vp_errno;     /* errno of this thread (glibc: *__errno_location ()) */
